@@ -332,6 +332,9 @@ func (o *Obligation) script(pre string, seed int) string {
 	}
 	vc := o.vc
 	for _, d := range vc.decls[:o.DeclLen] {
+		if o.ExpectSat && strings.Contains(d, "(forall ") {
+			continue
+		}
 		b.WriteString(d)
 		b.WriteByte('\n')
 	}
